@@ -42,6 +42,9 @@ func bnOnCurve(x, y uint16) bool { return mq(y, y) == aq(mq(mq(x, x), x), 3%bnQ)
 
 func l0(g *gfP) uint16 { return uint16(g[0]) }
 
+// identical x, y, z (the cached t is not maintained by Add / Double)
+func bnXYZ(c, d *curvePoint) bool { return c.x == d.x && c.y == d.y && c.z == d.z }
+
 // projective equality of two Jacobian points
 func bnSame(c, d *curvePoint) bool {
 	cz2, dz2 := mq(l0(&c.z), l0(&c.z)), mq(l0(&d.z), l0(&d.z))
@@ -68,6 +71,17 @@ func HarnessBNAdd(p0, p1 int) {
 		vreach("end")
 		vassert(c.z[0] != 0, "P + P (two Jacobian representations of the same point) is finite")
 		vassert(bnSame(c, d), "P + P given in two different Jacobian representations equals Double(P)")
+		ra := &curvePoint{}
+		ra.Set(a)
+		ra.Add(ra, b)
+		rb := &curvePoint{}
+		rb.Set(b)
+		rb.Add(a, rb)
+		vassert(bnSame(ra, d) && bnSame(rb, d), "the doubling branch with the receiver aliasing an operand")
+		rd := &curvePoint{}
+		rd.Set(a)
+		rd.Double(rd)
+		vassert(bnXYZ(rd, d), "r.Double(r) computes the same coordinates as a fresh receiver")
 		// and Double is the tangent law: with l = 3x^2/(2y): x3 = l^2 - 2x ; cross-multiplied by (2y)^2 and z3^2
 		zz := mq(l0(&d.z), l0(&d.z))
 		yy := mq(y, y)
@@ -116,6 +130,15 @@ func HarnessBNAdd(p0, p1 int) {
 		e := &curvePoint{}
 		e.Add(b, a)
 		vassert(bnSame(c, e), "P + Q = Q + P")
+		// C05: the same coordinates when the receiver is one of the operands
+		ra := &curvePoint{}
+		ra.Set(a)
+		ra.Add(ra, b)
+		rb := &curvePoint{}
+		rb.Set(b)
+		rb.Add(a, rb)
+		vassert(bnXYZ(ra, c), "r.Add(r, Q) computes the same coordinates as a fresh receiver")
+		vassert(bnXYZ(rb, c), "r.Add(P, r) computes the same coordinates as a fresh receiver")
 	}
 }
 
@@ -151,9 +174,30 @@ func HarnessBNAddReplay(p0, p1 int) {
 		l.MakeAffine()
 		r.MakeAffine()
 		ok = ok && *l == *r
+		// aliasing of the receiver with either operand, generic and doubling branch
+		for _, pair := range [][2]*curvePoint{{P, R}, {R, P}, {P, Q}} {
+			fresh := &curvePoint{}
+			fresh.Add(pair[0], pair[1])
+			fresh.MakeAffine()
+			ra := pair[0].Clone()
+			ra.Add(ra, pair[1])
+			ra.MakeAffine()
+			rb := pair[1].Clone()
+			rb.Add(pair[0], rb)
+			rb.MakeAffine()
+			ok = ok && *ra == *fresh && *rb == *fresh
+		}
+		rd := P.Clone()
+		rd.Double(rd)
+		rd.MakeAffine()
+		fd := &curvePoint{}
+		fd.Double(P)
+		fd.MakeAffine()
+		ok = ok && *rd == *fd
 	}
 	for _, id := range []string{"P + P (two Jacobian representations of the same point) is finite", "P + P given in two different Jacobian representations equals Double(P)", "Double(P) has the x-coordinate of the tangent law",
-		"P + (-P) is the point at infinity", "Neg(P) = (x, -y)", "P + O = P", "O + P = P", "O + O = O", "P + Q (x1 != x2) is finite", "P + Q has the x-coordinate of the chord law", "P + Q = Q + P"} {
+		"P + (-P) is the point at infinity", "Neg(P) = (x, -y)", "P + O = P", "O + P = P", "O + O = O", "P + Q (x1 != x2) is finite", "P + Q has the x-coordinate of the chord law", "P + Q = Q + P",
+		"r.Add(r, Q) computes the same coordinates as a fresh receiver", "r.Add(P, r) computes the same coordinates as a fresh receiver", "the doubling branch with the receiver aliasing an operand", "r.Double(r) computes the same coordinates as a fresh receiver"} {
 		vassert(ok, id)
 	}
 }
